@@ -46,7 +46,7 @@ def structure(draw, max_chains=3, nmax=6, wild=False, contact=True, waters=True,
         desc["columns"] = cols  # PDB columns after the coordinates: element absent / line cut / segment id
     if cif and draw(st.integers(0, 3)) == 0:
         # the same structure handed over as mmCIF; half of these with multi-character chain ids
-        desc["cif"] = dict(multi=draw(st.booleans()))
+        desc["cif"] = dict(multi=draw(st.booleans()), bigseq=draw(st.sampled_from([False, False, True])))
         for ch in desc["chains"]:
             ch.pop("altmod", None)
             if ch["id"].strip() == "":
@@ -230,8 +230,11 @@ def structure_to_cif(s, cif):
     cmap = {c: (("A" + "ABCDEFGH"[k % 8]) if cif.get("multi") else (c if c.strip() else "Z")) for k, c in enumerate(ids)}
     atoms = []
     for k, r in enumerate(s.records):
+        seq = r["seq"]
+        if cif.get("bigseq") and r["group"][0] == "water":
+            seq += 10000  # five-digit author residue numbers (large assemblies; only mmCIF can carry them)
         atoms.append(dict(rec=r["rec"], serial=k + 1, name=r["name"], alt=r.get("alt", " "), resn=r["resn"], chain=cmap[r["chain"]],
-                          label_chain="ABCDEFGHIJ"[ids.index(r["chain"]) % 10], seq=r["seq"], icode=r.get("icode", " "),
+                          label_chain="ABCDEFGHIJ"[ids.index(r["chain"]) % 10], seq=seq, icode=r.get("icode", " "),
                           xyz=r["xyz"], occ=1.0, b=10.0, elem=r["name"].lstrip("0123456789")[0], charge="", model=1,
                           label_seq=(r["group"][2] + 1) if r["group"][0] in ("chain", "na") else r["seq"]))  # fmt: skip
     return cifgen.cif_text(atoms), cmap
